@@ -34,7 +34,7 @@ CELLS = [f"{r}.{d}.{s}" for r in ("plain", "renamed")
          for s in ("supplied", "omitted")]
 REQUIRED_COUNTERS = ["objects", "subsets", "members.checked", "owner.class", "owner.parsed", "owner.untyped", "owner.subclass",
                      "novalue.calls", "novalue.default_valid", "novalue.default_invalid", "novalue.notpassed",
-                     "class_novalue.calls", "pattern_overlap", "defaults.scribbled"] + [f"cell.{c}" for c in CELLS]
+                     "class_novalue.calls", "pattern_overlap", "defaults.scribbled", "crossing_names"] + [f"cell.{c}" for c in CELLS]
 
 ANCHORS = [
     "statham.schema.elements.base:Element.__call__",
@@ -131,6 +131,15 @@ def make_object(rng, counter):
             pspec["source"] = gen_dsl.RENAMES[name]
         props[name] = pspec
         kinds[name] = kind
+    if rng.random() < 0.25:
+        # crossing names: the attribute name of one property is the JSON name of another one
+        # (type = Property(..., source="kind") next to type_ = Property(..., source="type"))
+        for attr, source in (("kind_x", "kind"), ("kind", "sort"), ("sort", "kind_x")):
+            pspec, kind = make_property(rng, counter)
+            pspec["source"] = source
+            props[attr] = pspec
+            kinds[attr] = kind
+        names = list(props)
     kw = {}
     overlap = False
     if rng.random() < 0.35:
@@ -229,6 +238,8 @@ def check_object(ctx, sut, fpm, rng, spec, owner, props, kinds, overlap):
         return
     ctx.count("objects")
     ctx.count("owner." + owner)
+    if "kind_x" in props:
+        ctx.count("crossing_names")
     if overlap:
         ctx.count("pattern_overlap")
     supplied_values = {}
@@ -238,6 +249,8 @@ def check_object(ctx, sut, fpm, rng, spec, owner, props, kinds, overlap):
     names = list(props)
     subsets = list(itertools.chain.from_iterable(
         itertools.combinations(names, k) for k in range(len(names) + 1)))
+    if len(subsets) > 64:
+        subsets = [subsets[0], subsets[-1]] + rng.sample(subsets[1:-1], k=62)
     for subset in subsets:
         value = {}
         for name in subset:
